@@ -177,7 +177,16 @@ def run_hook(case):
     S = Session(case)
     tr = S.trace
     cfg = case["cfg"]
-    in_r, in_w = os.pipe()
+    tios_before = None
+    if cfg.get("tty"):
+        # the input is a pseudo terminal (os.isatty is true: termios is saved / set to cbreak / restored);
+        # the output stays the recorder
+        import pty
+        import termios
+        in_w, in_r = pty.openpty()
+        tios_before = termios.tcgetattr(in_r)
+    else:
+        in_r, in_w = os.pipe()
     os.set_blocking(in_r, False)
     in_file = os.fdopen(in_r, "rb", buffering=0)
 
@@ -312,6 +321,10 @@ def run_hook(case):
     for s in sigs:
         signal.signal(s, signal.SIG_DFL)
     started = bool(scr.started)
+    cbreak = 0
+    if tios_before is not None:
+        import termios
+        cbreak = 0 if termios.tcgetattr(in_r) == tios_before else 1
     for fd in to_close:
         try:
             os.close(fd)
@@ -323,7 +336,7 @@ def run_hook(case):
         except OSError:
             pass
     in_file.close()
-    return {"trace": tr, "out": out, "sig": final, "started": started, "ncb": S.n}
+    return {"trace": tr, "out": out, "sig": final, "started": started, "ncb": S.n, "cbreak": cbreak}
 
 
 def run_plain(case):
@@ -717,6 +730,7 @@ class C12(core.Check):
         core.Check.__init__(self)
         self._w = None
         self._prefetched = {}
+        self._hangs = {}
 
     # ---------- worker ----------
     def _env(self):
@@ -744,6 +758,14 @@ class C12(core.Check):
             self._w = None
 
     def _ask_worker(self, case):
+        if self._hangs.get("worker", 0) >= 3:
+            return {"hang": "not run: 3 earlier in-process sessions did not terminate"}
+        res = self._ask_worker1(case)
+        if "hang" in res:
+            self._hangs["worker"] = self._hangs.get("worker", 0) + 1
+        return res
+
+    def _ask_worker1(self, case):
         w = self._worker()
         try:
             w.stdin.write(json.dumps(case) + "\n")
@@ -785,15 +807,26 @@ class C12(core.Check):
     def run_impl(self, case):
         if case["kind"] == "pty":
             key = core.canon(case)
-            proc = self._prefetched.pop(key, None) or self._pty_popen(case)
-            return self._pty_collect(proc)
+            proc = self._prefetched.pop(key, None)
+            if self._hangs.get(case["loop"], 0) >= 2:
+                if proc is not None:
+                    try:
+                        os.killpg(proc.pid, 9)
+                    except OSError:
+                        pass
+                    proc.communicate()
+                return {"hang": "not run: 2 earlier pty sessions with this event loop did not terminate"}
+            res = self._pty_collect(proc or self._pty_popen(case))
+            if "hang" in res:
+                self._hangs[case["loop"]] = self._hangs.get(case["loop"], 0) + 1
+            return res
         res = self._ask_worker(case)
         if "hang" in res or "harness_error" in res:
             return res
         tr = res["trace"]
         return {"out": res["out"], "started": res["started"], "ncb": res["ncb"],
                 "sig": res["sig"] if case["kind"] == "hook" else list(case["cfg"].get("sig", [0, 0, 0])),
-                "term": replay_modes(tr), "trace": tr}
+                "term": dict(replay_modes(tr), cbreak=res.get("cbreak", 0)), "trace": tr}
 
     # ---------- model wire format ----------
     def encode(self, case):
@@ -804,8 +837,8 @@ class C12(core.Check):
         l = [b(case["kind"] == "hook")]
         l += [0] if cfg.get("filter") is None else [1, len(cfg["filter"])] + list(cfg["filter"])
         l += [0, 0] if cfg.get("unhandled") is None else [1, b(cfg["unhandled"])]
-        l += [b(cfg.get("handle_mouse", True)), b(cfg.get("pop_ups")), b(cfg.get("paste")), b(cfg.get("focus")), 0,
-              b(cfg.get("prestarted"))]
+        l += [b(cfg.get("handle_mouse", True)), b(cfg.get("pop_ups")), b(cfg.get("paste")), b(cfg.get("focus")),
+              b(cfg.get("tty")), b(cfg.get("prestarted"))]
         pre = cfg.get("pre_alarms", [])
         l += [len(pre)] + list(pre)
         l += [b(wc.get("selectable", True)), b(wc.get("has_mouse", True))]
@@ -854,7 +887,6 @@ class C12(core.Check):
             sig = [next(it), next(it), next(it)]
             names = ["alt", "cursor", "mouse", "mouse2", "mouse6", "paste", "focus", "cbreak", "plain"]
             term = {k: next(it) for k in names}
-            del term["cbreak"]
             ntr = next(it)
             trace = []
             for _ in range(ntr):
@@ -1043,7 +1075,7 @@ class C12(core.Check):
                     inc("fault_at:" + {T_FILTER: "filter", T_KEYPRESS: "keypress", T_MOUSE: "mouse", T_UNHANDLED: "unhandled",
                                        T_ALARM: "alarm", T_PIPE: "pipe", T_FILE: "file", T_RENDER: "render"}[tr[int(k)][0]])
         cfg = case["cfg"]
-        for f in ("pop_ups", "prestarted", "paste", "focus"):
+        for f in ("pop_ups", "prestarted", "paste", "focus", "tty"):
             if cfg.get(f):
                 inc("cfg:" + f)
         fired = [int(k) for k in plan if int(k) < res.get("ncb", 0)]
@@ -1090,7 +1122,8 @@ class C12(core.Check):
         ]
         cfgs = [
             {"filter": [], "unhandled": 0, "handle_mouse": True, "pop_ups": False, "paste": False, "focus": False},
-            {"filter": None, "unhandled": None, "handle_mouse": False, "pop_ups": False, "paste": True, "focus": True},
+            {"filter": None, "unhandled": None, "handle_mouse": False, "pop_ups": False, "paste": True, "focus": True,
+             "tty": True},
             {"filter": [99], "unhandled": 1, "handle_mouse": True, "pop_ups": True, "paste": True, "focus": False,
              "pre_alarms": [3]},
             {"filter": [97, 98, 99, 100, 12], "unhandled": 1, "handle_mouse": True, "pop_ups": False, "prestarted": True,
@@ -1130,6 +1163,7 @@ class C12(core.Check):
         cfg = {"filter": rng.choice([None, [], [rng.choice(codes)], rng.sample(codes, 3)]),
                "unhandled": rng.choice([None, 0, 1]), "handle_mouse": rng.random() < 0.7, "pop_ups": rng.random() < 0.3,
                "paste": rng.random() < 0.4, "focus": rng.random() < 0.4, "prestarted": rng.random() < 0.2,
+               "tty": rng.random() < 0.3,
                "pre_alarms": [rng.randrange(1, 9) for _ in range(rng.choice([0, 0, 1, 2]))],
                # (a non-default SIGCONT handler is the known finding: kept rare so that it cannot crowd out
                #  other violations in the bounded violation list of the pipeline)
@@ -1160,6 +1194,7 @@ class C12(core.Check):
             cfg.pop("sig")
             cfg.pop("paste")
             cfg.pop("focus")
+            cfg.pop("tty")
             inputs = []
             for _ in range(rng.randrange(1, 6)):
                 if rng.random() < 0.25:
@@ -1261,7 +1296,7 @@ class C12(core.Check):
             if int(k) > 0:
                 yield dict(case, plan={(str(int(a) - 1) if a == k else a): b for a, b in plan.items()})
         cfg = case["cfg"]
-        for f in ("pop_ups", "prestarted", "paste", "focus"):
+        for f in ("pop_ups", "prestarted", "paste", "focus", "tty"):
             if cfg.get(f):
                 yield dict(case, cfg=dict(cfg, **{f: False}))
         if cfg.get("pre_alarms"):
